@@ -299,7 +299,7 @@ def selftest_determinism(args, seed):
 
 REQUIRED = {
     "C10": {
-        "probes": ["compared_after_sharer_refit", "twin_dataset_switch_compared", "compared_after_interrupted_output", "compared_on_update_lineage", "compared_after_recovery", "set_params_on_shared_object", "nested_set_params", "route_clone_compared", "route_setp_compared", "pristine_compared", "evaluate_compared", "sharer_ran_on_same_data", "fitted_params_compared", "update_ok", "sweep_points", "config_pairs", "dataset_mutated_in_place", "compared_exception_outcome", "set_params_rejected", "torn_fit_observed", "y_passed", "shape_cases", "update_with_overlapping_index"],
+        "probes": ["compared_after_sharer_refit", "twin_dataset_switch_compared", "compared_after_interrupted_output", "compared_on_update_lineage", "compared_after_recovery", "set_params_on_shared_object", "nested_set_params", "route_clone_compared", "route_setp_compared", "pristine_compared", "evaluate_compared", "sharer_ran_on_same_data", "fitted_params_compared", "update_ok", "sweep_points", "config_pairs", "dataset_mutated_in_place", "compared_exception_outcome", "set_params_rejected", "torn_fit_observed", "y_passed", "shape_cases", "update_with_overlapping_index", "continued_with_copy"],
         "faults": ["bad_data", "singular", "interrupt", "flaky", "bad_cuts"],
     },
     "C01": {"probes": ["prange_permuted", "refit_on_other_data", "sharing_detector_ran", "param_changed", "data_mutated_in_place", "step_on_second_instance", "exhaustive_interval_cases"], "faults": ["singular", "interrupt", "bad_cuts", "bad_param"]},
